@@ -42,8 +42,9 @@ def cases(draw, tier="quick"):
         order2.insert(draw(st.integers(0, len(order2))), n)
     if order2 == list(order) and len(order2) > 1 and draw(st.booleans()):
         order2 = list(draw(st.permutations(order2)))
+    order3 = draw(gen.same_length_variant(order, used, extras))
     return {"env": env, "expr": recipe, "order": list(order), "stratum": stratum, "points": pts,
-            "config": cfg, "newp": newp, "order2": order2}
+            "config": cfg, "newp": newp, "order2": order2, "order3": order3}
 
 
 def strategy(tier):
@@ -140,9 +141,11 @@ def check(case):
         if judged == 0:
             return Result.discard("no-in-domain-point", classes)
         # the same expression object against another variable list (a cache must not hand back the first callable)
-        order2 = case.get("order2")
-        if order2 and order2 != list(order):
-            classes.append("recompiled-with-second-V")
+        for okey in ("order2", "order3"):
+            order2 = case.get(okey)
+            if not order2 or order2 == list(order):
+                continue
+            classes.append("recompiled-with-second-V" if okey == "order2" else "recompiled-with-same-length-V")
             try:
                 V2 = [objs[n] for n in order2]
                 f2 = compile_expression(e, V2)
